@@ -519,3 +519,83 @@ Proof.
 Qed.
 
 End Fp.
+
+(* ================================================================================================
+   uniform interface for an arbitrary curve record (used by CurveMulP.v, CurveGenP.v, Props/C02.v) *)
+Definition gadd (c : curve) : pt -> pt -> pt := padd (cp c) (ca c) (cb c) (cn c).
+Definition gneg (c : curve) : pt -> pt := pneg (cp c).
+
+Lemma red_id_c c P : reduced c P -> red c P = P.
+Proof. destruct c as [p a b n]. apply red_id. Qed.
+
+Lemma red_red_c c P : red c (red c P) = red c P.
+Proof. destruct P as [[x y]|]; cbn; [|reflexivity]. now rewrite !Zmod_mod. Qed.
+
+Lemma gneg_red c P : gneg c (red c P) = gneg c P.
+Proof. destruct c as [p a b n]. apply pneg_red. Qed.
+
+Lemma gadd_None_l c Q : gadd c None Q = red c Q.
+Proof. reflexivity. Qed.
+
+Lemma gadd_None_r c P : gadd c P None = red c P.
+Proof. destruct c as [p a b n]. apply padd_None_r. Qed.
+
+Section Uniform.
+Variable c : curve.
+Hypothesis Hp : prime (cp c).
+Hypothesis Hp2 : cp c <> 2.
+
+Ltac open_c := destruct c as [p a b n]; cbn [cp ca cb cn] in *; unfold gadd, gneg; cbn [cp ca cb cn].
+
+Lemma on_curve_red_c P : on_curve c P <-> on_curve c (red c P).
+Proof using All. open_c. now apply on_curve_red. Qed.
+
+Lemma red_valid_c P : on_curve c P -> valid c (red c P).
+Proof using All. open_c. now apply red_valid. Qed.
+
+Lemma contains_iff_c P : contains_point c P = true <-> on_curve c P.
+Proof using All. open_c. apply contains_iff. Qed.
+
+Lemma mk_point_on_c x y : on_curve c (Some (x, y)) -> mk_point c x y = Ret (Some (x, y)).
+Proof using All. open_c. apply mk_point_on. Qed.
+
+Lemma mk_point_off_c x y : ~ on_curve c (Some (x, y)) -> mk_point c x y = Raise E_NOPOINT.
+Proof using All. open_c. apply mk_point_off. Qed.
+
+Lemma gadd_valid P Q : on_curve c P -> on_curve c Q -> valid c (gadd c P Q).
+Proof using All. open_c. now apply padd_valid. Qed.
+
+Lemma add_gadd P Q : on_curve c P -> on_curve c Q ->
+  exists R, add c P Q = Ret R /\ on_curve c R /\ (P <> None -> Q <> None -> reduced c R) /\ red c R = gadd c P Q.
+Proof using All.
+  open_c. intros HP HQ. unfold padd.
+  destruct (add_closed p Hp Hp2 a b n P Q HP HQ) as (R & -> & HR & Hred). eauto.
+Qed.
+
+Lemma gadd_red_l P Q : on_curve c P -> on_curve c Q -> gadd c (red c P) Q = gadd c P Q.
+Proof using All. open_c. now apply padd_red_l. Qed.
+
+Lemma gadd_red_r P Q : on_curve c P -> on_curve c Q -> gadd c P (red c Q) = gadd c P Q.
+Proof using All. open_c. now apply padd_red_r. Qed.
+
+Lemma gadd_comm P Q : on_curve c P -> on_curve c Q -> gadd c P Q = gadd c Q P.
+Proof using All. open_c. now apply padd_comm. Qed.
+
+Lemma gneg_valid P : on_curve c P -> valid c (gneg c P).
+Proof using All. open_c. now apply pneg_valid. Qed.
+
+Lemma neg_gneg P : on_curve c P -> exists R, neg c P = Ret R /\ on_curve c R /\ red c R = gneg c P.
+Proof using All. open_c. now apply neg_model. Qed.
+
+Lemma gadd_gneg P : on_curve c P -> gadd c P (gneg c P) = None.
+Proof using All. open_c. now apply padd_pneg. Qed.
+
+Lemma gneg_is_spec_neg P : gneg c P = spec_neg c (red c P).
+Proof using All. open_c. now apply pneg_is_spec_neg. Qed.
+
+Theorem add_is_spec_c P Q : on_curve c P -> on_curve c Q ->
+  exists R, add c P Q = Ret R /\ on_curve c R /\ (P <> None -> Q <> None -> reduced c R) /\
+            spec_add c (red c P) (red c Q) (red c R).
+Proof using All. open_c. now apply add_is_spec. Qed.
+
+End Uniform.
